@@ -270,7 +270,7 @@ def django_mark_safe(context):
             "SafeString",
             "SafeBytes",
         ]
-        if context.call_function_name in affected_functions:
+        if context.call_function_name in affected_functions and context.node.args:
             xss = context.node.args[0]
             if not isinstance(xss, ast.Str):
                 return check_risk(context.node)
